@@ -195,6 +195,8 @@ REFUSE = [
     ("R2->R2 landmark", {"vertices": [{"id": 0, "kind": "R2", "pose": [1.0, 2.0]}, {"id": 1, "kind": "R2", "pose": [3.0, 4.0]}], "edge": {"type": "lm", "ids": [0, 1], "z": [0.5, 0.5], "off": [0.1, 0.2], "om": [[1.0, 0.0], [0.0, 1.0]]}}),
     ("R3->R3 landmark", {"vertices": [{"id": 0, "kind": "R3", "pose": [1.0, 2.0, 0.0]}, {"id": 1, "kind": "R3", "pose": [3.0, 4.0, 1.0]}], "edge": {"type": "lm", "ids": [0, 1], "z": [0.5, 0.5, 0.1], "off": [0.0, 0.0, 0.0], "om": [[1.0, 0.0, 0.0], [0.0, 1.0, 0.0], [0.0, 0.0, 1.0]]}}),
 ]
+REFUSE.append(("R2->R2 landmark with a zero offset", {"vertices": [{"id": 0, "kind": "R2", "pose": [1.0, 2.0]}, {"id": 1, "kind": "R2", "pose": [3.0, 4.0]}], "edge": {"type": "lm", "ids": [0, 1], "z": [0.5, 0.5], "off": [0.0, 0.0], "om": [[1.0, 0.0], [0.0, 1.0]]}}))
+REFUSE.append(("R3->R3 landmark with an offset", {"vertices": [{"id": 0, "kind": "R3", "pose": [1.0, 2.0, 0.0]}, {"id": 1, "kind": "R3", "pose": [3.0, 4.0, 1.0]}], "edge": {"type": "lm", "ids": [0, 1], "z": [0.5, 0.5, 0.1], "off": [0.25, 0.0, -0.5], "om": [[1.0, 0.0, 0.0], [0.0, 1.0, 0.0], [0.0, 0.0, 1.0]]}}))
 SE2_OFFSETS = [[0.5, -0.25, 0.7], [0.5, 0.0, 0.0], [0.0, 0.0, 0.7], [0.0, 5e-324, 0.0], [0.0, 0.0, -1e-9], [1e300, 0.0, 0.0]]
 
 
@@ -464,6 +466,12 @@ def _eval_roundtrip(case, ctx):
     ops = 0
     parsed = 0
     for cyc in range(1, case.get("cycles", 1) + 1):
+        if cyc == 1:
+            # history: an earlier export attempt of this very graph failed (unwritable path) and the caller caught the error
+            try:
+                cur.to_g2o(os.path.join(ctx["tmp"], "no-such-directory", "x.g2o"))
+            except Exception:
+                pass
         cur.to_g2o(path)
         ops += 1
         if cyc == 1:
